@@ -2,5 +2,6 @@ SPECIFICATION Spec
 CONSTANTS
   Defect = "reorder"
   MaxChanges = 1
+  FocusKeys = {}
 INVARIANT OrderPreserved
 CHECK_DEADLOCK FALSE
